@@ -13,6 +13,7 @@ DOC = {
                    'reachable (R2); the hasher opens files read-only (R3); processes are spawned only by the transform module (R4); every temporary created has an owner whose Drop '
                    'removes exactly it (R5); run_script is reachable only on the dry_run == false edge (R6).',
     'rules': {
+        'C07.M': __import__('fcverif.rules.common', fromlist=['MANDATORY_TEXT']).MANDATORY_TEXT,
         'C07.R1': 'group entries: every reachable mutating primitive acts on a path with no INPUT origin (allowed: TMP, OUT, CACHE); hard_link/rename sources count as touched',
         'C07.R2': 'dry-run entries (dedupe, log_script, report readers, get_output_writer): no mutating primitive reachable except File::create(OUT)',
         'C07.R3': 'open_noatime: the OpenOptions reaching open() carry only read(true)/custom_flags',
@@ -73,6 +74,8 @@ def run(ctx):
     r5(ctx, cg, fl)
     r6(ctx)
     r7(ctx)
+    from .common import run_mandatory
+    run_mandatory(ctx, 'C07')
 
 
 def sink_sites(cg, keys):
